@@ -10,15 +10,20 @@ from spec import app_status as A
 PROPERTY = 'C15'
 NAMES = ['p1', 'p2', 'q1']
 MATCHES = {'p.': ['p1', 'p2'], 'q.': ['q1'], 'z.': [], '.*': ['p1', 'p2', 'q1'], 'p1|q1': ['p1', 'q1']}
+# process names that are not plain identifiers: read as regular expressions, 'p+1' does not match itself and 'p.2' also
+# matches its sibling 'px2' - a leaf that is exactly a process name must still mean that process
+NAMES_META = ['p+1', 'p.2', 'px2']
+MATCHES_META = {'p.': [], 'p.+': ['p+1', 'p.2', 'px2'], 'p.2': None, 'px.': ['px2'], 'z.': []}
+MATCHES_META = {k: v for k, v in MATCHES_META.items() if v is not None}
 
 
 def _application(src, core, nproc, managed=None, symbolic_flags=True, fixed_states=False, eager=False,
-                 domain=A.ALL_STATES, forcing=True):
+                 domain=A.ALL_STATES, forcing=True, names=NAMES):
     """application 'app' with nproc processes whose displayed state / flags are solver variables"""
     ident = core.local_identifier
     procs = []
     for k in range(nproc):
-        name = NAMES[k]
+        name = names[k]
         p = core.add_process(ident, 'app', name)
         st = A.RUNNING if fixed_states else src.int_in(f'state{k}', domain, eager=eager)
         forced = (not fixed_states) and forcing and src.pick_flag(f'forced{k}')
@@ -63,33 +68,35 @@ def state_and_required(src, nproc=2):
 
 
 # ------------------------------------------------------------------------------------------------ formulas
-def gen_valid(src, depth, tag='f'):
+def gen_valid(src, depth, tag='f', names=NAMES, matches=MATCHES):
     """symbolic choice of a formula of the documented grammar; returns the spec tree"""
     kinds = ['name', 'pattern'] + (['and', 'or', 'not', 'any', 'all'] if depth > 0 else [])
     kind = src.pick(f'{tag}k', kinds)
     if kind == 'name':
-        return ('name', src.pick(f'{tag}n', NAMES))
+        return ('name', src.pick(f'{tag}n', names))
     if kind == 'pattern':
-        return ('pattern', src.pick(f'{tag}p', list(MATCHES)))
+        return ('pattern', src.pick(f'{tag}p', list(matches)))
     if kind in ('and', 'or'):
-        return (kind, gen_valid(src, depth - 1, tag + 'a'), gen_valid(src, depth - 1, tag + 'b'))
-    return (kind, gen_valid(src, depth - 1, tag + 'a'))
+        return (kind, gen_valid(src, depth - 1, tag + 'a', names, matches),
+                gen_valid(src, depth - 1, tag + 'b', names, matches))
+    return (kind, gen_valid(src, depth - 1, tag + 'a', names, matches))
 
 
 @rigged
-def formula_semantics(src, depth=2):
+def formula_semantics(src, depth=2, meta=False):
     """H15b: the real evaluate / update_status_formula / _get_matches on symbolic process states vs the oracle"""
     core = Core(1, 0)
+    names, matches = (NAMES_META, MATCHES_META) if meta else (NAMES, MATCHES)
     app, procs, managed = _application(src, core, 3, managed=True, symbolic_flags=False, eager=True, forcing=False,
-                                       domain=(A.RUNNING, A.STARTING, A.STOPPED, A.EXITED, A.FATAL))
-    tree = gen_valid(src, depth)
+                                       domain=(A.RUNNING, A.STARTING, A.STOPPED, A.EXITED, A.FATAL), names=names)
+    tree = gen_valid(src, depth, names=names, matches=matches)
     formula = A.unparse(tree)
     app.rules.status_formula = formula
     app.update_sequences()
     app.update()
-    values = {NAMES[k]: A.operational(procs[k]['state'], procs[k]['expected_exit']) for k in range(3)}
+    values = {names[k]: A.operational(procs[k]['state'], procs[k]['expected_exit']) for k in range(3)}
     try:
-        r = A.eval_formula(tree, values, MATCHES)
+        r = A.eval_formula(tree, values, matches)
         expected = True if isinstance(r, list) else (not r)
         src.reach('resolved')
     except A.Unresolved:
@@ -228,6 +235,9 @@ HARNESSES = [
             timeout=(120, 1200), doc='application state, major and minor failure without formula'),
     Harness('H15b', formula_semantics, quick={'depth': 1}, thorough={'depth': 2}, reach=('resolved', 'unresolved'),
             timeout=(120, 1200), doc='formula semantics over names, patterns, and/or/not/any/all'),
+    Harness('H15b-meta', formula_semantics, quick={'depth': 1, 'meta': True}, thorough={'depth': 2, 'meta': True},
+            reach=('resolved', 'unresolved'), timeout=(100, 900),
+            doc='same with process names holding regular expression metacharacters (an exact name is that process)'),
     Harness('H15c', formula_safety, quick={'depth': 1}, thorough={'depth': 2}, reach=('accepted', 'refused'),
             timeout=(120, 1200), doc='hostile / ill-formed formulas: major failure, no error, no side effect'),
 ]
